@@ -123,7 +123,7 @@ func errType(err error) string {
 
 func execOp(op Op, e *env) (out Outcome) {
 	simrt.OpBegin()
-	out.Invoke = simrt.GlobalStep()
+	out.Invoke = simrt.Stamp()
 	l0 := stepsNow()
 	defer func() {
 		if r := recover(); r != nil {
@@ -133,7 +133,7 @@ func execOp(op Op, e *env) (out Outcome) {
 				out = Outcome{Kind: "panic", ErrMsg: fmt.Sprint(r), Invoke: out.Invoke}
 			}
 		}
-		out.Return = simrt.GlobalStep()
+		out.Return = simrt.Stamp()
 		out.Steps = stepsNow() - l0
 	}()
 	var v interface{}
@@ -538,6 +538,8 @@ func runSched(w *Workload) *RunReport {
 				class := "mismatch"
 				if got.Kind == "stepcap" {
 					class = "no-return"
+				} else {
+					class = attribute(w, rep)
 				}
 				rep.Violations = append(rep.Violations, Violation{Prop: "C12", Class: class, Sig: op.Kind,
 					Detail: fmt.Sprintf("client %d op %d %s(%q): concurrent call returned %s; the same call alone returns %s", ci, oi, op.Kind, w.Exprs[op.Expr], got.String(), ref.String())})
